@@ -36,6 +36,10 @@ PROJECTION = {
 }
 
 
+# property theorem modules (filled in as proofs land)
+PROP_MODS = {}
+
+
 def in_projection(prop, cls):
     proj = PROJECTION.get(prop)
     return True if proj is None else cls in proj
